@@ -442,6 +442,13 @@ def gen_interrupt(rng):
     srcs = names_of(spec, 'S')
     for _ in range(rng.choice([0, 0, 1, 2])):
         acts.append([rng.choice(TIMES), rng.choice(PRIOS), 'adjust', rng.choice(srcs), rng.choice([-1, 1, 2, 3])])
+    if rng.random() < 0.3:
+        # a source that runs dry and is refilled less than one cycle after its last supply
+        d = devs[0]
+        d['budget'] = rng.choice([1, 2, 3])
+        d['c'] = rng.choice([1.5, 3])
+        acts.append([d['budget'] * d['c'] + rng.choice([0, 0.25, 0.5, 1]), rng.choice(PRIOS), 'adjust', d['n'],
+                     rng.choice([1, 2, 3])])
     spec['actions'] = acts
     return finish(rng, spec, 'interrupt')
 
